@@ -3,6 +3,9 @@
 import json, subprocess
 ALL = ["C%02d" % i for i in range(1, 21)]
 CLAIMED = {
+ "C17": dict(level="exploration", technique="twin-configuration differential over request histories (cache TTL x existence checking x state vs direct operation), forced and delayed schedules at verifhook points for concurrent first requests with load counting, porcupine register histories under overlapping requests; race detector",
+   text="The same generated histories are run through the System under every cache setting and directly on locations and must agree request by request; concurrent first requests (seeded delays and a forced interleaving with an opener parked inside the loading gap) must load once and lose no acknowledged write; overlapping requests under never/short TTLs are checked as per-key register histories.",
+   note="Loads are counted through GetStats().NewLocations, storage through PeekStorage; schedules are sampled plus one forced interleaving; stale instances after an eviction-in-use under finite TTLs are the open finding c17.release-evicts-in-use.", ref="§5 C17"),
  "C16": dict(level="exploration", technique="offline checker over timestamped Add/Rem/suspend/fire event logs of the running cron loop, structural invariant walks (Timeline under its lock; crolt jobs/time buckets key for key, also across close/reopen), overlay-injected in-package monitor for the Bolt-backed service",
    text="Directed and random operation sequences run against the real firing loop of the in-memory cron (race detector on) and against the Bolt-backed service with harness-driven ticks; the logs are checked for early fires, fires after an early removal, exactly-once one-shots with canary-judged bounded progress, recurring jobs not ahead of their occurrences, and the pending structures are checked for sortedness, unique ids and bucket agreement after every operation and restart.",
    note="Bounded progress uses generous grace and a canary; crolt's due time is the time in the job's own key; crash points inside one bolt transaction are bolt's guarantee.", ref="§5 C16"),
